@@ -57,14 +57,18 @@ def snapshot_others(sched, fam, failed_tid):
 def build(t, fam, max_t, use_mra, n_workers):
     from syne_tune.config_space import choice, randint, uniform
 
+    # searchers which may repeat configurations still document that configurations of failed trials are avoided
+    dup = fam in ("fifo-random", "hb-stopping", "hb-promotion", "fifo-bo", "hb-bo-stopping", "hb-bo-promotion") and t.chance(1, 4)
     if fam == "fifo-grid":
         cs = {"x": choice(["a", "b", "c"]), "y": randint(0, 3)}
+    elif dup:
+        cs = {"x": choice(["a", "b"]), "y": randint(0, 2)}
     elif fam in GP_FAMILIES or t.bool():
         cs = {"x": uniform(0.0, 1.0), "y": randint(0, 3)}
     else:
         cs = {"x": choice(["a", "b", "c"]), "y": randint(0, 2)}
     if fam in GP_FAMILIES:
-        base = dict(metric="loss", mode=t.choice(["min", "max"]), random_seed=t.int(0, 10**6), searcher="bayesopt", search_options=dict(GP_OPTS))
+        base = dict(metric="loss", mode=t.choice(["min", "max"]), random_seed=t.int(0, 10**6), searcher="bayesopt", search_options=dict(GP_OPTS, **({"allow_duplicates": True} if dup else {})))
         if fam == "fifo-bo":
             spec = gen_sched.SchedSpec(fam, "FIFOScheduler", base, dict(cs))
         else:
@@ -80,6 +84,8 @@ def build(t, fam, max_t, use_mra, n_workers):
             spec.pause_resume = typ == "promotion"
         return spec, cs, use_mra
     spec = gen_sched.gen_sched(t, cs, max_t=max_t, max_resource_attr="epochs" if use_mra else None, families=[fam], n_workers=n_workers)
+    if dup and spec.kwargs.get("searcher") == "random":
+        spec.kwargs["search_options"] = dict(spec.kwargs.get("search_options") or {}, allow_duplicates=True)
     return spec, cs, use_mra
 
 
@@ -117,6 +123,8 @@ def run_protocol(t, fam, controller=None, fixed=None):
         checkpointing=fixed["checkpointing"] if fixed else not t.chance(1, 3), allow_fail=True, fail_weight=2, time_keeper=tk,
     )
     labels = {fam}
+    if (spec.kwargs.get("search_options") or {}).get("allow_duplicates"):
+        labels.add("allow-duplicates")
     failed_cfg = {}
     cfg_of = {}
     no_repeat = fam in ("fifo-random", "fifo-grid", "fifo-bo", "hb-stopping", "hb-promotion", "hb-pasha", "hb-bo-stopping", "hb-bo-promotion", "sync-hb")
@@ -334,7 +342,7 @@ def case_tuner(t):
 
 SUBCHECKS = {
     "protocol": {"fn": case_protocol, "quick": 14000, "thorough": 300000, "required": ["failure", "failure-after-resume", "failure-before-first-report", "failure-in-synchronous-bracket"] + FAMILIES},
-    "protocol-gp": {"fn": case_protocol_gp, "quick": 480, "thorough": 8000, "min_per_shard": 10, "required": ["failure", "gp-pending-at-failure"]},
+    "protocol-gp": {"fn": case_protocol_gp, "quick": 640, "thorough": 10000, "min_per_shard": 10, "required": ["failure", "gp-pending-at-failure", "allow-duplicates"]},
     "fault-enumeration": {"fn": case_enum, "enumerate": enum_faults, "quick": 1, "thorough": 1},
     "tuner": {"fn": case_tuner, "quick": 6000, "thorough": 120000, "required": ["failure", "stopped-externally", "limit-exceeded", "on_trial_error"]},
 }
